@@ -66,6 +66,9 @@ func decodeJSON(d DocSpec) (any, error) {
 	if dec.More() {
 		return nil, fmt.Errorf("trailing data")
 	}
+	if d.Int64 && !d.Number {
+		v = integralToInt64(v)
+	}
 	return v, nil
 }
 
@@ -1377,4 +1380,24 @@ func bumpVars(vars exec.Vars) {
 			vars[k] = v + "_"
 		}
 	}
+}
+
+// integralToInt64 rewrites integral float64 values (within the exact range)
+// as int64, which the library accepts alongside float64 and json.Number.
+func integralToInt64(v any) any {
+	switch v := v.(type) {
+	case float64:
+		if v == float64(int64(v)) && v > -1e15 && v < 1e15 {
+			return int64(v)
+		}
+	case []any:
+		for i, e := range v {
+			v[i] = integralToInt64(e)
+		}
+	case map[string]any:
+		for k, e := range v {
+			v[k] = integralToInt64(e)
+		}
+	}
+	return v
 }
